@@ -15,12 +15,12 @@ LEVEL = "exploration"
 ENGINE = "enum"
 TECHNIQUE = (
     "exhaustive enumeration of per-variable assignment patterns over the five program positions (ebuild before inherit, "
-    "outer eclass before its nested inherit, inner eclass, outer eclass after, ebuild after) x inherit shapes x EAPIs, every "
+    "outer eclass before its nested inherit, inner eclass, outer eclass after, ebuild after; forms none / set / set empty / append / unset / unset-then-set) x inherit shapes x EAPIs, every "
     "repository regenerated through the real ebuild daemon and compared with a straight-line reference interpreter of PMS 10.2"
 )
 RULE = (
     "a pattern fixes, for one variable, the statement at each of the five positions (none / VAR=\"tok\" / VAR=\"\" / VAR+=\" tok\" / "
-    "unset VAR, each position with its own token). Every repository assigns patterns to all 11 variables (IUSE REQUIRED_USE "
+    "unset VAR / unset VAR; VAR=\"tok\", each position with its own token). Every repository assigns patterns to all 11 variables (IUSE REQUIRED_USE "
     "DEPEND RDEPEND BDEPEND IDEPEND PDEPEND PROPERTIES RESTRICT DESCRIPTION SLOT) by rotating the pattern list with a stride, so "
     "that over the enumeration every variable meets every pattern while neighbours carry different ones; a phase-function "
     "configuration (functions in the ebuild / EXPORT_FUNCTIONS in the eclasses / non-phase helpers / phases foreign to the EAPI) "
@@ -31,7 +31,7 @@ RULE = (
 )
 ASSUMPTIONS = [
     "PMS 10.2 reading used by the reference: while an eclass is sourced the accumulated variables start unset; whatever the eclass leaves in them (non-empty) is that eclass's value; the caller's values are untouched by the inherit; the final metadata value is the ebuild's own final value followed by all eclass values; comparison is on token sets because PMS does not order or de-duplicate them",
-    "Excl: RDEPEND when the ebuild itself leaves it unset in EAPI 0-3 (implicit RDEPEND=DEPEND, DESIGN A13)",
+    "EAPI 0-3 implicit RDEPEND (PMS 7.3.7/10.2): an ebuild leaving RDEPEND unset gets its own final DEPEND as RDEPEND, eclass DEPEND never enters it, eclass RDEPEND accumulates on top",
     "Excl: keys that the EAPI does not define (REQUIRED_USE < 4, BDEPEND < 7, IDEPEND < 8) are not compared",
     "Excl: values are single alphanumeric tokens (no whitespace runs, globs, 'unset' as a literal value, leading dashes that echo would eat)",
     "Excl: conditional inherits, inherit inside functions, eclasses that unset or redefine functions, EXPORT_FUNCTIONS called more than once per eclass",
@@ -39,8 +39,8 @@ ASSUMPTIONS = [
     "EAPI 9 is disabled in this sandbox (bash 5.2): EAPIs 0-8 only",
 ]
 BOUNDS = {
-    "quick": "nested shape: 72 rotations (every 4th of the 288 core patterns as rotation origin; 11 variables x 72 = 792 variable/pattern combinations) x EAPIs {0,5,7,8}; other four shapes: 24 rotations x EAPIs {0,8}; 8 phase configurations rotating; 480 repositories",
-    "thorough": "nested shape: all 768 rotations of the full pattern list (every variable meets every pattern) x EAPIs 0-8; other four shapes: all 768 rotations x EAPIs {0,3,4,7,8}; 8 phase configurations rotating; 22 272 repositories (time cap 25 min, evidence states what was completed)",
+    "quick": "nested shape: 72 rotations (origins spread evenly over the 600 core patterns; 11 variables x 72 = 792 variable/pattern combinations) x EAPIs {0,5,7,8}; none/single/flat/diamond: 12/24/24/36 rotations x EAPIs {0,8}; 8 phase configurations rotating; 480 repositories",
+    "thorough": "nested shape: all rotations of the full pattern list (every variable meets every pattern) x EAPIs 0-8; other four shapes: all rotations x EAPIs {0,8}; 8 phase configurations rotating; 1 500 patterns, 25 500 repositories (time cap 25 min, evidence states what was completed)",
 }
 
 ACC_ALWAYS = ["IUSE", "REQUIRED_USE", "DEPEND", "RDEPEND", "BDEPEND", "IDEPEND", "PDEPEND"]
@@ -53,9 +53,9 @@ TOKEN_PREFIX = {
     "PDEPEND": "c/pd", "PROPERTIES": "pr", "RESTRICT": "re", "DESCRIPTION": "De", "SLOT": "Sl",
 }  # fmt: skip
 POSITIONS = ["B", "E1a", "E2", "E1b", "A"]
-# statement forms: "-" none, "s" set token, "e" set empty, "a" append token, "u" unset
-FORMS_CORE = {"B": "-s", "E1a": "-su", "E2": "-sua", "E1b": "-sa", "A": "-sau"}
-FORMS_FULL = {"B": "-se", "E1a": "-sua", "E2": "-sua", "E1b": "-sau", "A": "-sau"}
+# statement forms: "-" none, "s" set token, "e" set empty, "a" append token, "u" unset, "x" unset then set token
+FORMS_CORE = {"B": "-s", "E1a": "-su", "E2": "-suax", "E1b": "-saux", "A": "-sau"}
+FORMS_FULL = {"B": "-se", "E1a": "-suax", "E2": "-suax", "E1b": "-saux", "A": "-sau"}
 SHAPES = ["nested", "none", "single", "flat", "diamond"]
 
 PHASES_ALL = ["pkg_setup", "pkg_nofetch", "src_unpack", "src_compile", "src_test", "src_install", "pkg_preinst", "pkg_postinst",
@@ -107,12 +107,14 @@ def stmt(var, form, pos):
         return ["app", var, tok(var, pos)]
     if form == "u":
         return ["unset", var]
+    if form == "x":
+        return ["reset", var, tok(var, pos)]
     return None
 
 
 def build_programs(shape, assign, phase_cfg):
     """assign: {var: 5-char pattern}. Returns {"ebuild": prog, "e1": prog, "e2": prog} (eclasses only if sourced).
-    A program is a list of statements: [set|app, VAR, tok] [unset, VAR] [inherit, name...] [func, name] [export, phase...]"""
+    A program is a list of statements: [set|app|reset, VAR, tok] [unset, VAR] [inherit, name...] [func, name] [export, phase...]"""
     efuncs, ecfg = PHASE_CONFIGS[phase_cfg]
     eb, e1, e2 = [], [], []
     for var in VARS:
@@ -165,6 +167,9 @@ def render(prog, eapi=None):
             lines.append(f'{st[1]}+=" {st[2]}"')
         elif k == "unset":
             lines.append(f"unset {st[1]}")
+        elif k == "reset":
+            lines.append(f"unset {st[1]}")
+            lines.append(f'{st[1]}="{st[2]}"')
         elif k == "inherit":
             lines.append("inherit " + " ".join(st[1:]))
         elif k == "func":
@@ -195,9 +200,9 @@ def interpret(eapi, progs):
     def run(prog, scope, who):
         for st in prog:
             k = st[0]
-            if k in ("set", "app", "unset"):
+            if k in ("set", "app", "unset", "reset"):
                 target = scope if st[1] in acc else glob
-                if k == "set":
+                if k in ("set", "reset"):
                     target[st[1]] = st[2]
                 elif k == "app":
                     target[st[1]] = target.get(st[1], "") + " " + st[2]
@@ -225,9 +230,12 @@ def interpret(eapi, progs):
         if eapi < MIN_EAPI.get(v, 0):
             continue
         if v in acc:
+            mine = own.get(v, "")
             if v == "RDEPEND" and eapi <= 3 and "RDEPEND" not in own:
-                continue  # Excl: implicit RDEPEND
-            toks = set(own.get(v, "").split())
+                # EAPI 0-3: an ebuild that leaves RDEPEND unset (not merely empty) gets its *own* DEPEND as RDEPEND; eclass
+                # DEPEND is never part of it, eclass RDEPEND still accumulates on top
+                mine = own.get("DEPEND", "")
+            toks = set(mine.split())
             for c in contrib[v]:
                 toks |= set(c.split())
             exp[v] = toks
@@ -350,17 +358,21 @@ def plan(tier):
     out = []
     if tier == "quick":
         n = len(patterns(False))
+
+        def spread(k):  # k rotation origins spread evenly over the pattern list
+            return [i * n // k for i in range(k)]
+
         for eapi in (0, 5, 7, 8):
-            out.append(("nested", eapi, False, list(range(0, n, 4))))
-        for shape in ("none", "single", "flat", "diamond"):
+            out.append(("nested", eapi, False, spread(72)))
+        for shape, k in (("none", 12), ("single", 24), ("flat", 24), ("diamond", 36)):
             for eapi in (0, 8):
-                out.append((shape, eapi, False, list(range(0, n, 12))))
+                out.append((shape, eapi, False, spread(k)))
     else:
         n = len(patterns(True))
         for eapi in range(9):
             out.append(("nested", eapi, True, list(range(n))))
         for shape in ("none", "single", "flat", "diamond"):
-            for eapi in (0, 3, 4, 7, 8):
+            for eapi in (0, 8):
                 out.append((shape, eapi, True, list(range(n))))
     return out
 
@@ -464,7 +476,7 @@ def _eclass_unsets_violated_key(case):
     if key not in accumulated(case["eapi"]):
         return False
     progs = build_programs(case["shape"], case["assign"], case["phase_cfg"])
-    return any(st[0] == "unset" and st[1] == key for n, p in progs.items() if n != "ebuild" for st in p)
+    return any(st[0] in ("unset", "reset") and st[1] == key for n, p in progs.items() if n != "ebuild" for st in p)
 
 
 CLASSIFIERS = {"eclass-unsets-accumulated-variable": _eclass_unsets_violated_key}
